@@ -12,6 +12,16 @@ CHECKS = {
             "Generated histories of public operations are executed against geoh5py and a reference tree model; the live tree is compared with the model after every mutation and with a fresh opening of the file at every re-open. Exploration is the right level: the property quantifies over unbounded histories and schedules, no finite enumeration exists.",
             "Trusts h5py/HDF5, the apisnap walker (public getters) and the model's operation semantics from DESIGN.md 2.7; GC only at operation boundaries.",
             "DESIGN.md 3/C01"),
+    "C02": ("tree", "exploration",
+            "stateful PBT + validity predicate over an independent h5py reader (rawsnap), ddmin shrinking",
+            "Generated histories (removals, re-parenting, same/cross-workspace copies) are executed and after every close the file is read with plain h5py and checked against a layout predicate written from the format documentation (hard-link identity by HDF5 object address, in-degree, reachability, uid uniqueness, type sharing, property-group membership).",
+            "Validity is the documented layout; trusts h5py object addresses (h5o.get_info) as identity of HDF5 objects.",
+            "DESIGN.md 3/C02"),
+    "C05": ("tree", "exploration",
+            "stateful PBT with reference model + absence invariants (API lookups, listings, raw file) after removals, ddmin shrinking",
+            "Removal-heavy generated histories; after each removal, after GC and after re-open no lookup, listing, child list, property group or raw file entry may yield a removed entity; survivors must equal the model and later operations must succeed; protected entities must be refused without change.",
+            "The harness drops its own references and runs gc.collect() before asserting absence; raw absence is asserted after close only.",
+            "DESIGN.md 3/C05"),
 }
 
 NOT_APPLICABLE = {}
